@@ -1,7 +1,7 @@
 //! CKKS evaluator (C16): interpreter of straight-line programs over ciphertext registers.  Every step logs the
 //! outcome class (ok / err:<variant> / panic), the destination's metadata and storage width, and the base-2
 //! logarithm of the largest slot error against the same program run on complex numbers (f64 reference).
-use crate::util::{Rng, guarded};
+use crate::util::{ABuf, Rng, guarded};
 use poulpy_ckks::encoding::reim::Encoder;
 use poulpy_ckks::layouts::ciphertext::{CKKSCiphertext, CKKSMaintainOps};
 use poulpy_ckks::layouts::plaintext::{CKKSPlaintextVecRnx, CKKSPlaintextCstRnx, CKKSConstPlaintextConversion, alloc_pt_vec_znx, CKKSPlaintextConversion};
@@ -46,8 +46,11 @@ fn err_class(e: &anyhow::Error) -> String {
 
 macro_rules! ckks_backend {
     ($fname:ident, $BE:ty) => {
-        pub fn $fname(c: &Value) -> Vec<Value> {
+        pub fn $fname(c: &Value, fill: u64) -> Vec<Value> {
             type BE = $BE;
+            // C12: with "scr":"exact" every step runs in a canary-guarded window of exactly the bytes its companion query declares,
+            // filled with garbage derived from `fill`; the takes are logged (hook H4) and the destination is digested
+            let exact = c.get("scr").and_then(|v| v.as_str()) == Some("exact");
             let n = gu(c, "n", 64) as usize;
             let b = gu(c, "b", 19) as u32;
             let kmax = gu(c, "kmax", 152) as u32;
@@ -109,9 +112,66 @@ macro_rules! ckks_backend {
                 // a register left with metadata its own setter rejects (after an Err) is simply not usable as an operand
                 let (fa, fb) = (refs[a].clone(), refs[bb].clone());
                 let mut newref: Option<Cx> = None;
+                // declared scratch of this step (companion query of the operation, on the operands it is about to see)
+                let decl: usize = if !exact { 0 } else {
+                    let dreg = regs[d].as_ref();
+                    let xr = ra.as_ref();
+                    let k1 = &atks[&1];
+                    match (op.as_str(), dreg, xr) {
+                        ("alloc", _, _) | ("compact", _, _) | ("realloc", _, _) => 0,
+                        ("enc", _, _) => m.ckks_encrypt_sk_tmp_bytes(&glwe(gu(st, "k", 152) as u32)),
+                        (_, None, _) | (_, _, None) => 0,
+                        (o, Some(dd), Some(x)) => match o {
+                            "add_into" | "add_assign" => m.ckks_add_tmp_bytes(),
+                            "sub_into" | "sub_assign" => m.ckks_sub_tmp_bytes(),
+                            "neg_into" | "neg_assign" => m.ckks_neg_tmp_bytes(),
+                            "mul_pow2_into" | "mul_pow2_assign" => m.ckks_mul_pow2_tmp_bytes(),
+                            "div_pow2_into" | "div_pow2_assign" => m.ckks_div_pow2_tmp_bytes(),
+                            "rescale_into" | "rescale_assign" => m.ckks_rescale_tmp_bytes(),
+                            "align" => m.ckks_align_tmp_bytes(),
+                            "conj_into" | "conj_assign" => m.ckks_conjugate_tmp_bytes(dd, &atks[&-1]),
+                            "rot_into" | "rot_assign" => m.ckks_rotate_tmp_bytes(dd, k1),
+                            "mul_into" | "mul_assign" => m.ckks_mul_tmp_bytes(dd, &tskp),
+                            "square_into" | "square_assign" => m.ckks_square_tmp_bytes(dd, &tskp),
+                            "add_ptv_into" | "add_ptv_assign" => m.ckks_add_pt_vec_rnx_tmp_bytes(dd, x, &pprec),
+                            "sub_ptv_into" | "sub_ptv_assign" => m.ckks_sub_pt_vec_rnx_tmp_bytes(dd, x, &pprec),
+                            "add_ptz_into" | "add_ptz_assign" => m.ckks_add_pt_vec_znx_tmp_bytes(),
+                            "sub_ptz_into" | "sub_ptz_assign" => m.ckks_sub_pt_vec_znx_tmp_bytes(),
+                            "add_ptc_into" | "add_ptc_assign" | "add_ptcz_into" | "add_ptcz_assign" => m.ckks_add_pt_const_tmp_bytes(),
+                            "sub_ptc_into" | "sub_ptc_assign" | "sub_ptcz_into" | "sub_ptcz_assign" => m.ckks_sub_pt_const_tmp_bytes(),
+                            "mul_ptv_into" | "mul_ptv_assign" => m.ckks_mul_pt_vec_rnx_tmp_bytes(dd, x, &pprec),
+                            "mul_ptz_into" | "mul_ptz_assign" => m.ckks_mul_pt_vec_znx_tmp_bytes(dd, x, &pprec),
+                            "mul_ptc_into" | "mul_ptc_assign" | "mul_ptcz_into" | "mul_ptcz_assign" => m.ckks_mul_pt_const_tmp_bytes(dd, x, &pprec),
+                            "mul_add_ct" => m.ckks_mul_add_ct_tmp_bytes(dd, &tskp),
+                            "mul_sub_ct" => m.ckks_mul_sub_ct_tmp_bytes(dd, &tskp),
+                            "mul_add_ptv" => m.ckks_mul_add_pt_vec_rnx_tmp_bytes(dd, x, &pprec),
+                            "mul_sub_ptv" => m.ckks_mul_sub_pt_vec_rnx_tmp_bytes(dd, x, &pprec),
+                            "mul_add_ptz" => m.ckks_mul_add_pt_vec_znx_tmp_bytes(dd, x, &pprec),
+                            "mul_sub_ptz" => m.ckks_mul_sub_pt_vec_znx_tmp_bytes(dd, x, &pprec),
+                            "mul_add_ptc" | "mul_add_ptcz" => m.ckks_mul_add_pt_const_tmp_bytes(dd, x, &pprec),
+                            "mul_sub_ptc" | "mul_sub_ptcz" => m.ckks_mul_sub_pt_const_tmp_bytes(dd, x, &pprec),
+                            "add_many" => m.ckks_add_many_tmp_bytes(),
+                            "mul_many" => m.ckks_mul_many_tmp_bytes(3, dd, &tskp),
+                            "dot_ct" => m.ckks_dot_product_ct_tmp_bytes(2, dd, &tskp),
+                            "dot_ptv" => m.ckks_dot_product_pt_vec_rnx_tmp_bytes(dd, x, &pprec),
+                            "dot_ptz" => m.ckks_dot_product_pt_vec_znx_tmp_bytes(dd, x, &pprec),
+                            "dot_ptc" | "dot_ptcz" => m.ckks_dot_product_pt_const_tmp_bytes(dd, x, &pprec),
+                            other => panic!("harness: no size query known for ckks op {other}"),
+                        },
+                    }
+                };
+                let mut xbuf = if exact { Some(ABuf::new(decl, fill ^ (out.len() as u64) << 8)) } else { None };
+                let xsnap = xbuf.as_ref().map(|b| b.snapshot());
+                let xbase = xbuf.as_ref().map(|b| b.win().as_ptr() as usize).unwrap_or(0);
+                if exact {
+                    poulpy_cpu_ref::hal_defaults::scratch::verif_scratch_trace::start();
+                }
                 let r = guarded(|| -> anyhow::Result<()> {
-                    let mut scratch: ScratchOwned<BE> = ScratchOwned::alloc(1 << 24);
-                    let sref = scratch.borrow();
+                    let mut scratch: ScratchOwned<BE> = ScratchOwned::alloc(if exact { 64 } else { 1 << 24 });
+                    let sref: &mut Scratch<BE> = match xbuf.as_mut() {
+                        Some(bf) => <Scratch<BE> as ScratchFromBytes<BE>>::from_bytes(bf.win_mut()),
+                        None => scratch.borrow(),
+                    };
                     match op.as_str() {
                         "alloc" => {
                             regs[d] = Some(CKKSCiphertext::alloc(Degree(n as u32), TorusPrecision(gu(st, "k", 152) as u32), Base2K(b)));
@@ -395,6 +455,12 @@ macro_rules! ckks_backend {
                         }
                     }
                 });
+                let call = if exact {
+                    let takes = poulpy_cpu_ref::hal_defaults::scratch::verif_scratch_trace::stop();
+                    let canary = xbuf.as_ref().unwrap().unchanged_except(xsnap.as_ref().unwrap(), &[(0, decl)]);
+                    let tj: Vec<Value> = takes.iter().map(|&(a, l, t)| json!([a as i64 - xbase as i64, l, t])).collect();
+                    json!({"call": op, "decl": decl, "len": decl, "exact": true, "takes": tj, "canary": canary, "panic": match &r { Err(p) => p.chars().take(80).collect::<String>(), _ => String::new() }})
+                } else { Value::Null };
                 let status = match &r {
                     Ok(Ok(())) => "ok".to_string(),
                     Ok(Err(e)) => err_class(e),
@@ -437,7 +503,8 @@ macro_rules! ckks_backend {
                     regs[d] = None;
                 }
                 let cls = if status == "ok" { "ok" } else if status.starts_with("err") { "err" } else { "panic" };
-                out.push(json!({"op": op, "status": status, "cls": cls, "ld": ld, "lb": lb, "maxk": maxk, "err_log2": err_log2}));
+                let digest = if exact { regs[d].as_ref().map(|ct| { let w: Vec<i64> = ct.data().data.chunks(8).map(|c8| i64::from_le_bytes(c8.try_into().unwrap())).collect(); format!("{:016x}", w.iter().fold(0xcbf29ce484222325u64, |h, x| (h ^ (*x as u64)).wrapping_mul(0x100000001b3))) }).unwrap_or_default() } else { String::new() };
+                out.push(json!({"op": op, "status": status, "cls": cls, "ld": ld, "lb": lb, "maxk": maxk, "err_log2": err_log2, "call": call, "digest": digest}));
                 if status.starts_with("panic") {
                     break;
                 }
@@ -454,14 +521,22 @@ ckks_backend!(ckks_ntt120avx, NTT120Avx);
 
 pub fn run_ckks(c: &Value) -> Value {
     let be = gu(c, "be", 0);
-    let outs = match be {
-        0 => ckks_fft64ref(c),
-        1 => ckks_fft64avx(c),
-        2 => ckks_ntt120ref(c),
-        _ => ckks_ntt120avx(c),
+    let run = |fill: u64| match be {
+        0 => ckks_fft64ref(c, fill),
+        1 => ckks_fft64avx(c, fill),
+        2 => ckks_ntt120ref(c, fill),
+        _ => ckks_ntt120avx(c, fill),
     };
+    let outs = run(1);
     let mut e = c.clone();
     e["ev"] = json!("ckks");
+    if c.get("scr").and_then(|v| v.as_str()) == Some("exact") {
+        // a second run of the same program on other scratch garbage: same takes, same destination bytes after every step
+        let outs2 = run(2);
+        let runs: Vec<Value> = [&outs, &outs2].iter().enumerate().map(|(i, o)| json!({"fill": i + 1, "calls": o.iter().map(|x| x["call"].clone()).collect::<Vec<_>>(),
+            "digests": o.iter().map(|x| json!([x["status"], x["digest"]])).collect::<Vec<_>>()})).collect();
+        e["scr"] = json!(runs);
+    }
     e["outs"] = json!(outs);
     e
 }
